@@ -28,6 +28,7 @@ const (
 	aRType         // reflect.Type of a known type
 	aRKind         // reflect.Kind of a known type
 	aGlobal        // a package-level variable's value (maps with known literal contents)
+	aConcrete      // some non-nil value of a concrete type (result of a successful type assertion)
 )
 
 type aval struct {
@@ -70,6 +71,12 @@ type outcome struct {
 type tagEval struct {
 	c       *Ctx
 	steps   int
+	// hooks inject abstract results for calls / loads the rule wants to range over
+	callHook func(call *ssa.Call) ([]aval, bool)
+	loadHook func(load *ssa.UnOp) (aval, bool)
+	// callHookEnv is like callHook but may look at the abstract values of the current frame
+	callHookEnv func(call *ssa.Call, val func(ssa.Value) aval) ([]aval, bool)
+	maxVisits   int // loop unrolling bound per path (default 2)
 	globals map[*ssa.Global]map[string]constant.Value // string-keyed constant maps built in init
 }
 
@@ -280,8 +287,12 @@ func (te *tagEval) run(fr *frame, b *ssa.BasicBlock, pred *ssa.BasicBlock, depth
 			return
 		}
 		fr.visits[b]++
-		if fr.visits[b] > 2 {
-			return // loop explored twice on this path
+		mv := te.maxVisits
+		if mv == 0 {
+			mv = 2
+		}
+		if fr.visits[b] > mv {
+			return // loop explored often enough on this path
 		}
 		for _, in := range b.Instrs {
 			switch x := in.(type) {
@@ -308,7 +319,7 @@ func (te *tagEval) run(fr *frame, b *ssa.BasicBlock, pred *ssa.BasicBlock, depth
 						if isIface {
 							res = xv
 						} else {
-							res = aval{K: aUnknown}
+							res = aval{K: aConcrete, Tag: x.AssertedType}
 						}
 					}
 					if x.CommaOk {
@@ -331,6 +342,8 @@ func (te *tagEval) run(fr *frame, b *ssa.BasicBlock, pred *ssa.BasicBlock, depth
 				xv := te.val(fr, x.X)
 				if xv.K == aTag {
 					fr.env[x] = xv
+				} else if xv.K == aConst && xv.C != nil {
+					fr.env[x] = xv // a boxed constant stays a constant
 				} else {
 					fr.env[x] = tagOf(x.X.Type())
 				}
@@ -344,6 +357,12 @@ func (te *tagEval) run(fr *frame, b *ssa.BasicBlock, pred *ssa.BasicBlock, depth
 					fr.env[x] = xv
 				}
 			case *ssa.UnOp:
+				if x.Op == token.MUL && te.loadHook != nil {
+					if a, ok := te.loadHook(x); ok {
+						fr.env[x] = a
+						continue
+					}
+				}
 				xv := te.val(fr, x.X)
 				switch x.Op {
 				case token.NOT:
@@ -447,6 +466,12 @@ func (te *tagEval) binop(op token.Token, a, b aval) (aval, bool) {
 		}
 		return aval{}, false
 	}
+	// a known non-nil concrete value compared with the nil constant
+	if op == token.EQL || op == token.NEQ {
+		if (a.K == aConcrete && b.K == aConst && b.C == nil) || (b.K == aConcrete && a.K == aConst && a.C == nil) {
+			return aval{K: aConst, C: constant.MakeBool(op == token.NEQ)}, true
+		}
+	}
 	if a.K == aConst && b.K == aConst && a.C != nil && b.C != nil {
 		switch op {
 		case token.EQL, token.NEQ, token.LSS, token.LEQ, token.GTR, token.GEQ:
@@ -468,6 +493,26 @@ func isNumKind(c constant.Value) bool {
 
 func (te *tagEval) call(fr *frame, call *ssa.Call, depth int, outs *[]outcome) {
 	cc := call.Common()
+	if te.callHookEnv != nil {
+		if res, ok := te.callHookEnv(call, func(v ssa.Value) aval { return te.val(fr, v) }); ok {
+			if len(res) == 1 {
+				fr.env[call] = res[0]
+			} else {
+				fr.tuples[call] = res
+			}
+			return
+		}
+	}
+	if te.callHook != nil {
+		if res, ok := te.callHook(call); ok {
+			if len(res) == 1 {
+				fr.env[call] = res[0]
+			} else {
+				fr.tuples[call] = res
+			}
+			return
+		}
+	}
 	full := calleeFullName(call)
 	// reflect.TypeOf(v).Kind().String()
 	switch full {
